@@ -2300,7 +2300,8 @@ class Client:
                         raise
                     self._easy_log(
                         MQTT_LOG_DEBUG, "Connection failed, retrying")
-                    self._reconnect_wait()
+                    # reconnect() has left MQTT_CS_CONNECT_ASYNC: the loop below
+                    # waits (once, with the usual back-off) and retries.
             else:
                 break
 
